@@ -7,6 +7,7 @@ diagnostics.  Line formats: see the header of `harness/c12.cpp`.
 -/
 import Driver.Proto
 import AdaptaVerif.Check.Tree
+import Driver.C12Ops
 namespace Driver.C12
 open Driver AdaptaVerif.Num AdaptaVerif.Check.Tree
 
@@ -425,7 +426,11 @@ def checkCase (c : Case) : CaseResult := Id.run do
     return { verdict := .specfail s!"{first.kind}: {first.msg} [all kinds: {kinds}; {fails.size} findings]",
              nontrivial := nontrivial, stats := stats }
 
+/-- cases of the op-level correspondence (tags `ops-*`, `hook-*`) go to `Driver.C12Ops` -/
+def dispatch (c : Case) : CaseResult :=
+  if c.tag.startsWith "ops-" || c.tag.startsWith "hook-" then Driver.C12Ops.checkOps c else checkCase c
+
 def run (_args : List String) : IO UInt32 :=
-  runCases checkCase
+  runCases dispatch
 
 end Driver.C12
